@@ -90,10 +90,27 @@ func sourceOf(f rig.Frame) string {
 	return f.Type
 }
 
+// ownFrames drops the frames that repeat an earlier frame byte for byte (retransmissions).
+func ownFrames(c *vk.Ctx, frames []rig.Frame) []rig.Frame {
+	seen := map[string]bool{}
+	var own []rig.Frame
+	for _, f := range frames {
+		if seen[string(f.Raw)] {
+			c.Count("wire_messages/retransmission(not numbered)", 1)
+			continue
+		}
+		seen[string(f.Raw)] = true
+		own = append(own, f)
+	}
+	return own
+}
+
 func checkWire(c *vk.Ctx, desc string, frames []rig.Frame, c0 int, role rig.Role, sawLogon bool, replay map[string]interface{}) (sig string, switches int) {
 	var prevT time.Time
 	prevSrc := ""
 	var sb strings.Builder
+	// "retransmissions requested by the peer aside": a frame that repeats an earlier frame byte for byte is the
+	// retransmission of that frame (C10 judges those); everything else is a message of its own and is numbered
 	for i, f := range frames {
 		if err := fixref.CheckFrame(fixref.Std, f.Raw); err != nil {
 			c.Violate("C05/invalid-frame-on-wire(C01)", fmt.Sprintf("%s: frame #%d fails the framing oracle: %v: %s", desc, i, err, vk.Trunc(fixref.Pretty(f.Raw), 300)), replay)
@@ -170,6 +187,11 @@ func scenario(c *vk.Ctx, i int) {
 			G = 4
 		}
 	}
+	// every fourth scenario: the (chatty) peer also sends ResendRequests for a few messages below the last one sent
+	partialResend := (i/2)%4 == 1
+	if partialResend {
+		chatty = true
+	}
 	// every sixth scenario: a large outgoing buffer, messages of 1.5 kB and a peer that does not read at all during
 	// the first 1.3 s — several hundred kB are queued when the writer gets going again
 	backlog := (i/2)%6 == 3
@@ -186,7 +208,7 @@ func scenario(c *vk.Ctx, i int) {
 	}
 	slowPeer := []time.Duration{0, 100 * time.Microsecond, 300 * time.Microsecond}[r.Intn(3)]
 	reuse := (i/2)%2 == 1 // every sender goroutine builds one message object and sends that object M times
-	desc := fmt.Sprintf("%s reusedObjects=%v flood=%v backlog=%v G=%d M=%d buf=%d chatty=%v storeDelayMaxUs=%d peerReadsEvery=%v c0=%d GOMAXPROCS=%d #%d", role, reuse, flood, backlog, G, M, buf, chatty, st.maxUs, slowPeer, c0, runtime.GOMAXPROCS(0), i)
+	desc := fmt.Sprintf("%s reusedObjects=%v flood=%v backlog=%v partialResends=%v G=%d M=%d buf=%d chatty=%v storeDelayMaxUs=%d peerReadsEvery=%v c0=%d GOMAXPROCS=%d #%d", role, reuse, flood, backlog, partialResend, G, M, buf, chatty, st.maxUs, slowPeer, c0, runtime.GOMAXPROCS(0), i)
 	_ = desc
 	replay := map[string]interface{}{"scenario": desc, "index": i, "seed": c.Seed}
 	holdCh := make(chan struct{})
@@ -295,6 +317,19 @@ func scenario(c *vk.Ctx, i int) {
 				return
 			case <-time.After(d):
 			}
+			if partialResend && k%2 == 1 {
+				// the peer asks for a few messages again, with an explicit end below the last number sent
+				if fr, _ := l.Frames(); len(fr) >= 4 {
+					last, _ := strconv.Atoi(fr[len(fr)-1].Seq)
+					e := last - 1 - rr.Intn(2)
+					b := e - rr.Intn(3)
+					if b > c0 && b >= 1 {
+						l.Conn.Feed(l.Peer.Resend(b, e))
+						c.Count("partial_resend_requests_during_traffic", 1)
+						continue
+					}
+				}
+			}
 			switch rr.Intn(3) {
 			case 0:
 				l.Conn.Feed(l.Peer.TestRequest("p" + strconv.Itoa(k)))
@@ -316,6 +351,10 @@ func scenario(c *vk.Ctx, i int) {
 	frames, rest := l.Frames()
 	if len(rest) != 0 {
 		c.Violate("C05/partial-message-on-wire", desc+": trailing bytes that are not a whole message", replay)
+	}
+	if partialResend {
+		// "retransmissions requested by the peer aside": only where the peer did request some
+		frames = ownFrames(c, frames)
 	}
 	sig, switches := checkWire(c, desc, frames, c0, role, refusedFirst, replay)
 	// application sends: sending time within [call, return]
